@@ -169,7 +169,7 @@ def check(tier, seed):
         evaluations=total,
         distinct_nontrivial=len(scheds),
         rule=('one evaluation = one seeded run: T in {2,3,4,8,16} tasks (real threads under a baton scheduler) execute 4-32 '
-              'lookups / disjoint writes each through views of one field that are shared, copied per task, built inside each task, or built by a helper thread that is gone before the tasks start; both lookup forms of the view; yield points at every '
+              'lookups / disjoint writes each through views of one field that are shared, copied per task, built inside each task, or built by a helper thread that is gone before the tasks start; both lookup forms of the view; for stacks whose view returns values (interpolators, casts) a banded mode in which every task owns three lattice rows, writes them through the storage-order layer and looks them up before and after; yield points at every '
               'instrumented memory access; distinct = distinct hash of the (access counter, from, to) context-switch sequence; '
               'non-trivial = at least one preemption was taken inside a library call (not merely at an operation boundary)'),
         samples=samples,
